@@ -1295,3 +1295,18 @@ def case_two_ifs_same_name():
 
 
 CASES["two_ifs_same_name"] = case_two_ifs_same_name
+
+
+def case_initializer_shape_inference():
+    """the Reshape target is an initializer that is ALSO a graph input (overridable default); a downstream Shape must not be folded from the
+    default: fed another target, the original and the optimized model must agree"""
+    s0 = numpy_helper.from_array(np.array([2, 3], dtype=np.int64), "s")
+    g = helper.make_graph([helper.make_node("Reshape", ["x", "s"], ["y"]), helper.make_node("Shape", ["y"], ["z"])], "g",
+                          [vi("x", TensorProto.FLOAT, [6]), vi("s", TensorProto.INT64, [2])], [vi("z", TensorProto.INT64, [2])], [s0])
+    m = helper.make_model(g, opset_imports=[helper.make_opsetid("", 18)], ir_version=9)
+    x = np.arange(6, dtype=np.float32)
+    return check(m, [{"x": x}, {"x": x, "s": np.array([3, 2], dtype=np.int64)}, {"x": x, "s": np.array([1, 6], dtype=np.int64)}],
+                 "Shape(Reshape(x[6], s)) with s an initializer [2,3] that is also a graph input")
+
+
+CASES["initializer_shape_inference"] = case_initializer_shape_inference
